@@ -41,7 +41,9 @@ TRUSTED_BASE = [
     "the behavioural continuation claim (T3) is NOT carried by a theorem: it is tested on the real interpreter at every cut point of the generated histories",
 ]
 ASSUMPTIONS = [
-    "dict keys are None/bool/int/str or flat tuples of them (no float keys, no nested tuple keys; equal keys such as 1/True are not generated together); floats finite and dyadic",
+    "Lean model: dict keys are None/bool/int/str or flat tuples of them (float keys are generated and decided by the oracle only; no nested tuple keys; equal keys such as 1/True/1.0 are not generated together); "
+    "floats = finite doubles (exact dyadics), -0.0, nan, inf, -inf; strings with lone surrogates and ints beyond 4300 digits are oracle-only (not UTF-8 / decimal transportable to the driver)",
+    "container nesting depth <= 100 (generated) — CPython's recursion limit bounds encode_to_dict/json at depth ~1000: a resource bound like memory, not part of the statement",
     "function-level models: Serialize.encode/decode (sharing-free reading), CleanUp.cleanUp (well-formed flow_id_states index)",
     "fake clock replaces statemachine.datetime / flows.datetime; uuids come from a counter; random.choice picks the first candidate",
 ]
@@ -80,20 +82,40 @@ KEYS = ["x", "y", "z", "k1", "k2", "name", "__type", "value", "_p"]
 ENUMS = [("FlowStatus", "FINISHED"), ("FlowStatus", "WAITING"), ("FlowHeadStatus", "ACTIVE"), ("ActionStatus", "STARTED"), ("InteractionLoopType", "NEW"), ("SpecOpType", "MATCH")]
 
 
+# the rest of the value domain of a flow variable / event argument / action result (everything a Colang expression, an incoming
+# event or an action can put into the state): non-finite and extreme floats, -0.0, ints beyond 64 bits and beyond the range of a
+# double, strings that stress the JSON text layer (the tokens json.dumps writes for nan/inf, line separators, NUL, non-BMP, lone
+# surrogates, long), markers of the serializer's own format
+import math as _math
+
+SPECIAL_SCALARS = [
+    _math.inf, -_math.inf, _math.nan, -0.0, 0.0, 1.7976931348623157e308, -1.7976931348623157e308, 5e-324, 1e-320, 2.2250738585072014e-308, 0.1, 1e16, 1 / 3,
+    2 ** 53 + 1, 2 ** 63, -(2 ** 63) - 1, 2 ** 64, 10 ** 30, -(10 ** 400), 2 ** 1024,
+    "NaN", "Infinity", "-Infinity", "null", "-0.0", "\u2028x\u2029", "\x00", "\x7f\x85", "é😀", "\ud800", "a\udfffb", "\\\"/\n\t", "__id", "__ref_count", "items",
+    "L" * 3000,
+]
+
+
 def enc_scalar(x):
     if x is None or isinstance(x, bool):
         return x
     if isinstance(x, int):
-        return {"i": x}
+        return pv.icode(x)
     if isinstance(x, float):
-        return {"f": list(pv.dyadic(x))}
-    return {"s": x}
+        return {"f": pv.fcode(x)}
+    return pv.scode(x)
+
+
+def pick_scalar(rng):
+    if rng.random() < 0.18:
+        return rng.choice(SPECIAL_SCALARS)
+    return rng.choice(SCALARS)
 
 
 def g_hashable(rng, depth=1):
     r = rng.random()
     if r < 0.7 or depth <= 0:
-        return enc_scalar(rng.choice([s for s in SCALARS if s != "__obj"]))
+        return enc_scalar(pick_scalar(rng))
     if r < 0.85:
         return {"t": [g_hashable(rng, depth - 1) for _ in range(rng.randrange(3))]}
     return {"e": list(rng.choice(ENUMS))}
@@ -103,7 +125,7 @@ def g_raw(rng, depth):
     """JSON-native payload for Action.context / start_event_arguments"""
     r = rng.random()
     if depth <= 0 or r < 0.5:
-        return enc_scalar(rng.choice(SCALARS))
+        return enc_scalar(pick_scalar(rng))
     if r < 0.75:
         return {"l": [g_raw(rng, depth - 1) for _ in range(rng.randrange(3))]}
     return {"d": [[{"s": k}, g_raw(rng, depth - 1)] for k in rng.sample(["x", "y", "z", "q"], rng.randrange(3))]}
@@ -115,7 +137,7 @@ def g_value(rng, depth, npool, bad=None):
     if npool and r < 0.12:
         return {"share": rng.randrange(npool)}
     if depth <= 0 or r < 0.3:
-        return enc_scalar(rng.choice(SCALARS))
+        return enc_scalar(pick_scalar(rng))
     sub = lambda: g_value(rng, depth - 1, npool)  # noqa: E731
     n = rng.choice([0, 1, 1, 2, 2, 3])
     if r < 0.42:
@@ -128,7 +150,10 @@ def g_value(rng, depth, npool, bad=None):
         return {"q": [sub() for _ in range(n)]}
     if r < 0.74:
         if rng.random() < 0.2:  # non-string keys: written as an item list since d13eeb5
-            pool = [None, True, {"i": 0}, {"i": 5}, {"i": -2}, {"s": "k"}, {"s": "__type"}, {"T": []}, {"T": [{"i": 1}, {"s": "b"}]}, {"T": [None, False]}]
+            pool = [None, True, {"i": 0}, {"i": 5}, {"i": -2}, {"s": "k"}, {"s": "__type"}, {"T": []}, {"T": [{"i": 1}, {"s": "b"}]}, {"T": [None, False]},
+                    {"i": 2 ** 64}, {"s": ""}, {"s": "é😀"}]
+            if rng.random() < 0.25:  # float keys: every hashable scalar kind (decided by the oracle; the Lean key universe has no floats)
+                pool += [{"F": [3, 1]}, {"F": "nan"}, {"F": "inf"}, {"F": "-inf"}, {"F": [1, 1074]}]
             ks = rng.sample(pool, min(n, 3))
             if True in ks and {"i": 1} in ks:
                 ks.remove(True)
@@ -230,13 +255,18 @@ def g_ser_case(rng, depth):
                 v = {"d": [[{"s": "x"}, v]]}
             pool.append(v)
     v = g_value(rng, depth, npool)
+    if rng.random() < 0.03:
+        # deep nesting: a chain of 20..100 containers of mixed kinds around the value
+        for _ in range(rng.randrange(20, 101)):
+            w = rng.random()
+            v = {"l": [v]} if w < 0.4 else {"d": [[{"s": "n"}, v]]} if w < 0.7 else {"t": [v]} if w < 0.85 else {"q": [v]} if w < 0.95 else {"d": [[{"i": 1}, v]]}
     if npool and rng.random() < 0.8:
         v = {"l": [v] + [{"share": rng.randrange(npool)} for _ in range(rng.randrange(1, 4))]}
     bad = None
     if rng.random() < 0.12:
         bad = rng.choice(BAD_KINDS)
         v = plant(rng, v, bad)
-    if rng.random() < 0.15:
+    if rng.random() < 0.25:
         # a whole `State` as the root: goes through state_to_json / json_to_state (callbacks re-created)
         fss = []
         for i in range(rng.randrange(1, 4)):
@@ -292,6 +322,13 @@ def g_cleanup_case(rng):
 
 # ============================================================================= generators: e2e programs
 
+# values only an expression can make (`float` is one of the functions of the expression language), beyond the plain literals
+SPECIAL_LITERALS = [
+    'float("inf")', 'float("-inf")', 'float("nan")', "1e308 * 10", "-1e308 * 10", 'float("inf") - float("inf")', "-0.0", "0.0 * -1", "5e-324", "1.7976931348623157e308", "0.1 + 0.2",
+    '[float("nan"), {"lim": float("inf")}]', '{float("inf"), 1.5}', '{"lo": float("-inf"), "hi": float("inf"), "z": -0.0}', '{1.5: "x", float("inf"): "top"}', 'greater_than(float("-inf"))',
+    "2 ** 80", "10 ** 400", "0 - 2 ** 63 - 1", '"\\ud800"', '"\\u2028\\u2029"', '"NaN"', '"é😀"', '"a" * 4000', "[[[[[[[[[[[[[[[[[[[[1.5]]]]]]]]]]]]]]]]]]]]",
+    "{}", "[]", '[[], {}, [{}]]', '{"e": {}}',
+]
 LITERALS = [
     '{"a", "b"}', '{1, 2, 3}', 'regex("a+")', '{1: "one", 2: [3, {"k": regex("b")}]}', '[1, [2, {"k": "v"}]]', '{"k": [1, 2], "n": {"z": {"q", "r"}}}', '[{"x"}, {"y": {1}}]', '"txt"', "42", "2.5", "True", "None", "[]", '{"only"}',
 ]
@@ -359,7 +396,11 @@ def g_program(rng, want=None):
     for _ in range(nstmt):
         r = rng.random()
         if r < 0.16:
-            lines.append(f"  {newval()} = {rng.choice(LITERALS)}")
+            if rng.random() < 0.3:
+                lines.append(f"  {newval()} = {rng.choice(SPECIAL_LITERALS)}")
+                feats.add("special-literal")
+            else:
+                lines.append(f"  {newval()} = {rng.choice(LITERALS)}")
         elif r < 0.2 and valvars:
             src = anyvar()
             lines.append(f"  {newval()} = {src}")
@@ -450,7 +491,10 @@ def g_history(rng, n, src=""):
     for _ in range(n):
         r = rng.random()
         if r < 0.12:
-            h.append({"finish": rng.randrange(3)})
+            fin = {"finish": rng.randrange(3)}
+            if rng.random() < 0.3:  # what an action may return: a score / distance / time-out that is not finite, a huge count, odd text
+                fin["res"] = enc_scalar(rng.choice(SPECIAL_SCALARS))
+            h.append(fin)
         elif r < 0.16:
             h.append({"started": rng.randrange(3)})
         else:
@@ -460,6 +504,9 @@ def g_history(rng, n, src=""):
                 ev["k"] = rng.choice(ks) if rng.random() < 0.85 else rng.choice([1, 2, 3, 7])
             elif e in ("Ping", "E1", "E2", "E3", "E4"):
                 ev["x"] = rng.choice([1, "s", [1, 2], {"k": "v"}, None])
+                if rng.random() < 0.2:  # an incoming event may carry any JSON-ish payload the embedding application computed
+                    sp = enc_scalar(rng.choice(SPECIAL_SCALARS))
+                    ev["x"] = {"$pv": sp if rng.random() < 0.6 else {"d": [[{"s": "lim"}, sp], [{"s": "vals"}, {"l": [sp, {"i": 1}]}]]}}
             h.append(ev)
     return h
 
@@ -494,7 +541,7 @@ flow main
 
 
 def g_rails_case(rng, want=None):
-    lit = BAD_LITERALS[want] if want else rng.choice(LITERALS)
+    lit = BAD_LITERALS[want] if want else rng.choice(LITERALS + SPECIAL_LITERALS[:16])
     turns = [rng.choice(["hi", "again", "bye", "go", "other"]) for _ in range(rng.randrange(2, 6))]
     if rng.random() < 0.7:
         turns[0] = "hi"
@@ -583,7 +630,29 @@ def worker_init():
     _M.update(sm=sm, flows=flows, ser=ser, parse=parse_colang_file, mkcfg=create_flow_configs_from_flow_list)
 
 
+def _safe(x):
+    """observations are written to UTF-8 files and hashed by the runner: a raw string with a lone surrogate (an error message
+    quoting a value, a reply) must not travel as such (values themselves are coded by pv.scode); non-finite floats neither"""
+    if isinstance(x, str):
+        try:
+            x.encode("utf-8")
+            return x
+        except UnicodeEncodeError:
+            return x.encode("utf-8", "backslashreplace").decode("utf-8")
+    if isinstance(x, float) and (x != x or x in (float("inf"), float("-inf"))):
+        return "float:" + repr(x)
+    if isinstance(x, dict):
+        return {_safe(k): _safe(v) for k, v in x.items()}
+    if isinstance(x, (list, tuple)):
+        return [_safe(v) for v in x]
+    return x
+
+
 def run_impl(case):
+    return _safe(_run_impl(case))
+
+
+def _run_impl(case):
     if not _M:
         worker_init()
     k = case["kind"]
@@ -677,6 +746,10 @@ def _exc_kind(e):
         return "typeError"
     if isinstance(e, KeyError):
         return "keyError"
+    if isinstance(e, ValueError) and "Out of range float" in s:
+        return "valueError"  # json.dumps(allow_nan=False)
+    if isinstance(e, ValueError) and "integer string conversion" in s:
+        return "intDigits"  # CPython's int -> decimal str limit (4300 digits)
     if type(e) is Exception and "Unknown d_type" in s:
         return "unknownType"
     if type(e) is Exception and "Could not find reference" in s:
@@ -717,8 +790,10 @@ def run_ser(case):
         obs["aliased_lists_after"] = pv.aliased_lists(back)
         return obs
     try:
+        # `state_to_json` is `encode_to_dict` + the repo's own `json.dumps` call (with whatever options it passes): every value goes
+        # through it, whatever the root; `d` (python ids still in it) is only used for the refs comparison
+        text = ser.state_to_json(obj)
         d = ser.encode_to_dict(obj, {})
-        text = json.dumps(d)
     except Exception as e:  # noqa
         obs["enc_exc"] = _exc_kind(e)
         obs["enc_msg"] = str(e)[:120]
@@ -844,7 +919,7 @@ class _Run:
 
     def concrete(self, ev):
         if "type" in ev:
-            return dict(ev)
+            return {k: (pv.build(v["$pv"]) if isinstance(v, dict) and "$pv" in v else v) for k, v in ev.items()}
         pending = [a for a in self.started if a[0] not in self.finished]
         if not pending:
             return {"type": "Noop"}
@@ -856,6 +931,8 @@ class _Run:
                 out["final_script"] = "done"
             else:
                 out["result"] = {"r": [1, 2]}
+            if "res" in ev:
+                out["final_script" if name == "UtteranceBotAction" else "result"] = pv.build(ev["res"])
             return out
         uid, name = pending[ev["started"] % len(pending)]
         return {"type": name + "Started", "action_uid": uid}
@@ -977,8 +1054,12 @@ def _graph_diff(a, b):
         if type(x) is not type(y) and not (isinstance(x, dict) and isinstance(y, dict)):
             # (AttributeDict vs dict is invisible: every variable read re-wraps dicts, eval.py)
             return f"{path}: type {type(x).__name__} vs {type(y).__name__}"
-        if x is None or isinstance(x, (bool, int, float, str)):
-            if x != y and not (isinstance(x, float) and x != x):
+        if isinstance(x, float):
+            if pv.fcode(x) != pv.fcode(y):  # nan is nan, -0.0 is not 0.0
+                return f"{path}: {x!r} vs {y!r}"
+            continue
+        if x is None or isinstance(x, (bool, int, str)):
+            if x != y:
                 return f"{path}: {x!r} vs {y!r}"
             continue
         if isinstance(x, (Enum, datetime)):
@@ -1010,7 +1091,7 @@ def _graph_diff(a, b):
         elif isinstance(x, Action):
             stack.extend((getattr(x, f), getattr(y, f), f"{path}.<action>.{f}", False) for f in ("uid", "name", "flow_uid", "status", "context", "start_event_arguments", "flow_scope_count"))
         elif isinstance(x, set):
-            if x != y:
+            if pv.canon(pv.observe(x)) != pv.canon(pv.observe(y)):  # by exact value (a restored nan is another object: {nan} != {nan})
                 return f"{path}: set {x} vs {y}"
         elif isinstance(x, tuple) or type(x).__name__ == "deque":
             if len(x) != len(y):
@@ -1024,7 +1105,9 @@ def _graph_diff(a, b):
 
 def _shallow(v, d=0):
     """comparable picture of a context value: containers by value, runtime objects by class and uid"""
-    if v is None or isinstance(v, (bool, int, float, str)):
+    if isinstance(v, float):
+        return {"f": pv.fcode(v)}  # nan != nan: floats are compared by their exact code
+    if v is None or isinstance(v, (bool, int, str)):
         return v
     if d > 6:
         return "<deep>"
@@ -1248,6 +1331,8 @@ def run_e2e(case):
 
 def model_requests(case, obs):
     if case["kind"] == "ser":
+        if pv.unmodelled(obs["seen"]):
+            return []  # outside the wire format of the driver (lone surrogates, float keys, ints beyond 4300 digits): oracle only
         reqs = [{"m": "C11.ser", "v": obs["seen"]}]
         if "cv" in obs:
             reqs.append({"m": "C11.shared", "t": obs["cv"]})
@@ -1416,6 +1501,18 @@ def _worst(problems):
     return sorted(problems, key=lambda p: (_ORDER.index(p["what"]), p["cut"]))[0]
 
 
+def max_depth(j, d=0):
+    if isinstance(j, dict):
+        for t in ("l", "t", "q", "S"):
+            if t in j:
+                return max([max_depth(x, d + 1) for x in j[t]] + [d + 1])
+        if "d" in j:
+            return max([max_depth(v, d + 1) for _, v in j["d"]] + [d + 1])
+        if "D" in j:
+            return max([max_depth(v, d + 1) for _, v in j["D"][1]] + [d + 1])
+    return d
+
+
 def strip_partials(j):
     """functools.partial objects are dropped on purpose (json_to_state re-creates them): expected value is None"""
     if isinstance(j, dict):
@@ -1576,6 +1673,17 @@ def tags(case, obs):
             t.append("refs-json-compared")
         if obs.get("root_state"):
             t.append("root:State")
+        um = pv.unmodelled(obs.get("seen"))
+        if um:
+            t.append("oracle-only:" + um)
+        sj = json.dumps(obs.get("seen"))
+        for name, pat in (("float:nan", '"f": "nan"'), ("float:inf", '"f": "inf"'), ("float:-inf", '"f": "-inf"'), ("float:-0", '"f": "-0"'), ("surrogate", '"su"'), ("float-key", '"F"')):
+            if pat in sj:
+                t.append("dom:" + name)
+        if re.search(r'"i": -?\d{20,}', sj):
+            t.append("dom:bigint")
+        if sj.count("[") > 150 and max_depth(obs.get("seen")) >= 20:
+            t.append("dom:deep>=20")
     elif k == "cleanup":
         if "exc" in obs:
             t.append("exc:" + obs["exc"])
@@ -1661,3 +1769,7 @@ def shrink(case):
                     yield dict(case, v={"d": v["d"][:i] + v["d"][i + 1:]})
                 for _, x in v["d"]:
                     yield dict(case, v=x)
+            if "D" in v:
+                for _, x in v["D"][1]:
+                    if isinstance(x, dict):
+                        yield dict(case, v=x)
